@@ -10,10 +10,12 @@ fi
 # warm the cache: standard library (plain and -race) and the harness against /repo
 W=$(mktemp -d /var/tmp/verif-work/setup-XXXXXX)
 trap 'rm -rf "$W"' EXIT
-mkdir -p "$W/repo" "$W/sim"
+mkdir -p "$W/repo" "$W/sim" "$W/repo/verifshim"
 rsync -a --exclude .git --exclude benchmarks /repo/ "$W/repo/"
+rsync -a shim/ "$W/repo/verifshim/"
+bin/instrument "$W/repo" > /dev/null
 rsync -a sim/ "$W/sim/"
 cp /repo/go.sum "$W/sim/go.sum"
-(cd "$W/sim" && go build -trimpath -o "$W/worker" ./cmd/worker && go build -trimpath -o "$W/supervisor" ./cmd/supervisor)
-(cd "$W/sim" && go build -race -o /dev/null std 2>/dev/null || true)
+(cd "$W/sim" && go build -trimpath -tags simsched -o "$W/worker" ./cmd/worker && go build -trimpath -o "$W/supervisor" ./cmd/supervisor)
+(cd "$W/sim" && go build -trimpath -tags simsched -race -o "$W/worker-race" ./cmd/worker)
 echo "setup: ok"
